@@ -214,6 +214,244 @@ PROPS = {
         "explanation": "assembly theorem for all answer arrays; exact comparison of real transform / fit_transform with index output and with the model",
         "assumptions": COMMON_ASSUMPTIONS,
     },
+    "C02": {
+        "harness": "c02", "level": "proof", "category": "proof", "design_ref": "DESIGN.md 5/C02, 4.5, Appendix E (Query), 6 (D4, D5)",
+        "translators": [],
+        "technique": "Lean 4 proof (invariants over the elementary state changes of the graph search: visited-table discipline => "
+                     "simple_heap_push never sees a vertex twice; termination measure; translation lemmas) + bit-exact differential "
+                     "correspondence of the numba search_closure + property predicate on the real query() output",
+        "text": "Lean theorems search_sound, search_terminates, search_fuel_irrelevant, seeds_distinct, popMin_least, translate_sentinel, "
+                "translate_truth, translate_injective, query_sound, batch_rows_independent, batch_sound, skipped_row about a literal model "
+                "of one iteration of search_closure (result heap via simple_heap_push, heapq seed set on (d, vertex) tuples, visited table, "
+                "leaf + min(k, n_neighbors) - |leaf| random candidates, (1+eps) bound recomputed after every push, strict '<' tests, "
+                "both loop exits), deheap_sort and the -1-preserving translation through _vertex_order: for EVERY search graph, distance "
+                "table, leaf, generator stream (hence serial, parallel and racy generator states alike), k, n_neighbors, bound scaling and "
+                "fuel, every filled slot of an answer row names a distinct row < n of the caller's data with the true distance, rows ascend, "
+                "unfilled slots are (-1, inf) and come last; the loop ends by its own condition within n iterations and extra fuel changes "
+                "nothing; the pre-repair translation (vo[-1]) is refuted by a 2-point example. The model is tied to the code by reproducing, "
+                "for real dense indexes over integer-valued data (euclidean/manhattan, tree_init T/F), exactly the inputs the closure sees "
+                "(CSR of _search_graph, distance table from the real _distance_func, leaf from the real _tree_search, generator values from "
+                "the real tau_rand_int on the copy query() makes) and comparing raw heap, visited table, sorted row and public answer "
+                "bit-for-bit; the hypotheses of the theorems (CSR well-formed, leaf duplicate-free, draws < n, raw = data[vo]) are checked on "
+                "the real arrays; the property predicate (distinct, in range, -1 last, ascending, distance = independent float64 metric of "
+                "the query and the CALLER's row) is evaluated on real query() output for dense / CSR / bit-packed data x tree_init x "
+                "compressed x parallel_batch_queries, k > n_neighbors, k > n, zero-norm queries, data points as queries, eps in {0,.1,.5}",
+        "note": TB + "the sampled bit-exact correspondence between Model/Search.lean and search_closure (dense closure, serial mode; the "
+                     "sparse closure and parallel mode have the same loop body and are covered by the API-level predicate only); "
+                     "dist(data[v], q) is an input of the model (its truth is C07/C08/C09); the final distance correction is applied by "
+                     "the real ufunc (C09); float32 distances without NaN; that parallel iterations touch only their own row and private "
+                     "tables is C05's footprint check",
+        "explanation": "theorems over every graph / distance table / leaf / generator stream / k / eps / fuel; bit-exact correspondence of "
+                       "raw heap, visited table, sorted row, translated answer; API predicate with float64 references in caller numbering",
+        "assumptions": COMMON_ASSUMPTIONS + [
+            "float32 distances are totally ordered (no NaN reaches the heap or the seed set), np.inf is the greatest value",
+            "the search graph is an n x n CSR matrix (indices < n, indptr monotone, len n+1), the tree leaf is a slice of a permutation "
+            "of the rows, generator values are reduced modulo n: checked on the real arrays of every kernel-level case, not proved",
+            "_raw_data = data[_vertex_order] with _vertex_order a permutation (checked per index; established by _init_search_graph, C04/C14)",
+            "heapq on (float32, int32) tuples pops the lexicographically least tuple (numba's tuple comparison; NaN-free)",
+            "k >= 1 and n_neighbors >= 1 (otherwise the first heappop of the real code raises)",
+        ],
+    },
+    "C10": {
+        "harness": "c10", "level": "proof", "category": "proof", "design_ref": "DESIGN.md 5/C10, 7, Appendix D", "translators": [],
+        "technique": "Lean 4 proof of a certificate checker (weak LP duality with tolerance over Q, all sizes) + per-run certification of the real "
+                     "solver's output in exact rational arithmetic + Lean proofs of the LP-level consequences",
+        "text": "The network simplex itself (optimal_transport.py, ~900 lines of pivoting on a threaded spanning tree) is NOT modelled. Lean proves "
+                "once, for every size, cost matrix and candidate (flow f, potentials u, v, tolerance eps), that acceptance by the executable checker "
+                "Transport.certify implies <C,f> <= <C,g> + gap for EVERY non-negative plan g with the marginals of f (certify_sound, linked to the "
+                "array-level Boolean the native driver evaluates), the variant against plans whose marginals are exactly the normalised inputs "
+                "(certify_sound_exact_marginals) and the two-sided bound on the value (certify_value); and, for the LP optimum itself: symmetry under "
+                "a symmetric cost, 0 for equal distributions under a non-negative zero-diagonal cost, invariance under rescaling either input, "
+                "independence of the cost outside supp(x) x supp(y), and equality with the 1-D closed form sum|F-G| for the cost |i-j| (lower bound for "
+                "every plan + the comonotone coupling attains it). On every check run the harness executes the real Python body of "
+                "distances.kantorovich / sparse.sparse_kantorovich with the real numba kernels, records flow and node potentials at the "
+                "network_simplex_core boundary, converts the doubles to exact rationals and the native Lean checker certifies EVERY run "
+                "(gap <= 1e-9 max C; marginal residuals against the exactly normalised inputs <= 1e-9; returned value = <C,f> computed exactly); "
+                "swapped / equal / rescaled inputs, the |i-j| cost (vs the exact closed form and wasserstein_1d), sparse vs densified calls and a "
+                "scipy linprog cross-check are evaluated on the real outputs",
+        "note": TB + "the simplex is not modelled: its OUTPUT is certified per run, so nothing is claimed about inputs that were not run; "
+                     "termination of the pivot loop is OBSERVED under a deadline (worker process killed on overrun; max_iter exhaustion is recorded, and "
+                     "reported when the certificate then fails), not proved; the harness's reading of flow/pi out of the solver's arrays (arc (i,j) at "
+                     "n*m-1-(i*m+j), node ids n+m-1-k; asserted against source/target on every run); the interpreted body of kantorovich behaves like "
+                     "the compiled one (their return values are compared on every run); floating-point normalisation is covered only through the "
+                     "residual bound (the certified plan has the normalised marginals up to 1e-9, the LP minimum between *its own* marginals is what "
+                     "the two-sided theorem bounds); existence of an LP minimum for an arbitrary cost matrix is not proved (the ot_* theorems are "
+                     "stated for any value that is the minimum; existence is exhibited for equal distributions and for the |i-j| cost)",
+        "explanation": "theorems for all sizes over Q; every run of the real solver (3000 quick / 15000 thorough) certified by the proved checker in exact "
+                       "arithmetic; relations and independent LP cross-check on real outputs",
+        "assumptions": [
+            "Lean 4.33.0 kernel; theorems may use only propext, Classical.choice, Quot.sound (audited with #print axioms on every run)",
+            "the solver's arrays are read with the arc / node numbering of allocate_graph_structures(use_arc_mixing=False) (asserted on every run)",
+            "termination of network_simplex_core is observed (deadline + max_iter), not proved",
+            "inputs: non-negative float32 vectors of positive mass, finite non-negative float64 cost; float rounding of the normalisation and of the "
+            "returned sum is covered by the stated tolerances (1e-9 relative to max C; value to 1e-6 relative)",
+        ],
+    },
+    "C15": {
+        "harness": "c15", "level": "proof", "category": "proof", "design_ref": "DESIGN.md 5/C15, 4.3, App. E, notes N8/D8", "translators": [],
+        "technique": "Lean 4 proof (greedy occlusion = unique solution of the rule, by induction over the visiting order; agreement of the "
+                     "list-append and the argsort form for every draw stream) + bit-exact differential correspondence of all four real kernels",
+        "text": "Lean theorems occlude_is_rule, rule_unique, first_retained, prob_zero_retains_all, kernels_agree, occlude_idempotent (and the "
+                "list-form corollaries occlude_is_rule_list, first_retained_list, prob_zero_retains_all_list, list_stops_at_sentinel) about literal "
+                "models of the two loops behind the four kernels (diversify / sparse.diversify: list-append form with the -1 break; diversify_csr / "
+                "sparse.diversify_csr: argsort + retained[] form with the visiting order as a parameter), for every row length, storage order, "
+                "visiting order, distance table (no symmetry or triangle inequality assumed) and linear order of lengths; kernels_agree holds for "
+                "every draw stream, i.e. every prune_probability and generator state. The models are tied to the numba kernels by comparing "
+                "output rows / data arrays bit for bit on generated rows (integer-coordinate datasets under euclidean, manhattan, sqeuclidean: "
+                "ties, zero-distance duplicates, -1 padding and holes, unsorted CSR storage, lengths at 0, EPS/2, EPS, EPS+ulp) for "
+                "prune_probability 1, 0 and 0.5 (the outcomes of tau_rand(rng_state+i) < 0.5 are recorded from the real generator and replayed "
+                "by the model), and the property predicate (iff-rule for some admissible tie order, nearest retained, probability 0 retains "
+                "all, dense = sparse, list = CSR on equal visiting orders) is evaluated on the real output",
+        "note": TB + "the sampled bit-exact correspondence between Model/Diversify.lean and the four kernels; the distance table handed to the "
+                     "model is the metric kernel's own float64 return value (dense and sparse kernels are observed to return identical bits on "
+                     "the generated data); tau_rand itself is left out (its outcomes are replayed); tau_rand returning exactly 1.0 "
+                     "(probability 3e-8 per draw) is excluded at prune_probability = 1; float32 lengths without NaN",
+        "explanation": "theorems over every row / visiting order / distance table / draw stream; kernel-level correspondence of 4 kernels x 3 probabilities, "
+                       "tie-free rows exactly, tied CSR rows for some ordering of the tied entries (numba's own argsort first, then brute force <= 720 orders)",
+        "assumptions": COMMON_ASSUMPTIONS + [
+            "float32 lengths and metric values are totally ordered (no NaN reaches a diversify kernel)",
+            "np.argsort inside diversify_csr returns a permutation that sorts the lengths ascending (any order among ties)",
+            "tau_rand(state) < 1.0 (the single float32 value 1.0 excluded) for prune_probability = 1",
+            "dense and sparse metric kernels return the same value for the same pair of points (sampled bit for bit; C08 is the property about it)"],
+    },
+    "C16": {
+        "harness": "c16", "level": "proof", "category": "proof", "design_ref": "DESIGN.md 5/C16, 4.3, App. E, App. G, notes D9/D19", "translators": [],
+        "technique": "Lean 4 proof about a literal model of degree_prune_internal and an executable stage-by-stage model of _init_search_graph "
+                     "+ bit-exact kernel correspondence + end-to-end edge-set prediction of the real _search_graph + API-level predicate",
+        "text": "Lean theorems prune_bound (for m >= 1 fewer than m kept entries are strictly shorter than the cut, every kept entry is <= cut, every "
+                "non-zero entry <= cut is kept), prune_keeps_min, prune_subset about degree_prune_internal for every row and linear order; "
+                "searchGraph_no_self_loops (square, no diagonal), searchGraph_subgraph (every edge joins two points of which one lists the other) "
+                "and searchGraph_nearest_partial (the list-nearest other point survives the forward pass, the <=0 -> EPS protection, the second "
+                "greedy pass, the symmetrisation and the diagonal removal; the pruned row keeps a shortest candidate; the edge itself is kept "
+                "unless m strictly shorter edges are) about the pipeline model for diversify_prob = 1, for every neighbour graph, distance table "
+                "and argsort behaviour. degree_prune_internal is compared bit for bit with the model on rows longer / equal / shorter than the "
+                "bound with ties; for diversify_prob = 1 the model predicts the edge set of index._search_graph from the real _neighbor_graph and "
+                "the table of the index's own _distance_func, compared edge for edge after un-permuting through _vertex_order (dense and CSR, "
+                "tree_init, m down to 1, n <= 200, tie-free and tied rows); the predicate search_graph(index) of DESIGN App. G is evaluated on real "
+                "indexes across n_neighbors, pruning_degree_multiplier, diversify_prob in {1, 0.5, 0}, dense/CSR, tree_init, euclidean / cosine / "
+                "correlation incl. duplicate, parallel and 2-D correlation data (zero and slightly negative lengths)",
+        "note": TB + "the sampled correspondence between the pipeline model and _init_search_graph (scipy glue included: the hand-filled COO matrix "
+                     "keeps rows in list order, transpose() is a view, maximum / setdiag / eliminate_zeros); searchGraph_nearest_partial assumes a "
+                     "symmetric distance table, ascending rows (C11), d(x,x) <= FLOAT32_EPS and covers diversify_prob = 1 only; diversify_prob < 1 "
+                     "and the _vertex_order permutation are covered by the API predicate on the real code, not by a theorem; "
+                     "round(pruning_degree_multiplier * n_neighbors) = 0 is outside the property (numba's sort(row)[-1] then cuts nothing)",
+        "explanation": "theorems over every row / neighbour graph / distance table / argsort; degree_prune_internal bit-exact; exact end-to-end "
+                       "edge-set prediction for diversify_prob = 1; API predicate for all probabilities",
+        "assumptions": COMMON_ASSUMPTIONS + [
+            "float32 lengths are totally ordered (no NaN)", "neighbour-graph rows are ascending and name no point twice (C11, C01)",
+            "the metric kernel is symmetric bit for bit and d(x,x) <= FLOAT32_EPS (checked on every generated index; asymmetric tables are skipped and counted)",
+            "scipy: coo.tocsr() of the hand-filled COO matrix neither sorts nor sums (its has_canonical_format flag is stale), csr.transpose() shares "
+            "the three arrays, maximum treats implicit entries as 0 and drops zero results (all observed through the end-to-end comparison)",
+            "m = round(pruning_degree_multiplier * n_neighbors) >= 1"],
+    },
+    "C07": {'harness': 'c07',
+     'level': 'proof',
+     'category': 'proof',
+     'design_ref': 'DESIGN.md 5/C07, 4.7',
+     'translators': [],
+     'technique': "Lean 4 proof over the reals about one generic model of the dense kernels (written once over a class Arith, following each kernel's "
+                  'loop and branch structure) + the same term executed over float64 by the driver against the real numba kernels under the float '
+                  'tolerance rule + real kernels against an independent float64 reference (scipy / definition)',
+     'text': 'Lean theorems <metric>_spec / _symm / _self / _defined over R for euclidean, squared_euclidean, manhattan, chebyshev (IsGreatest), '
+             'minkowski (real powers), cosine (zero-norm branches; range [0,2] by Cauchy-Schwarz), dot (unit norm), true_angular (similarity-like: '
+             'identical non-zero -> 1; spec on <x,y> > 0, the FLOAT32_MAX sentinel region stated as the code is), correlation (= cosine of the centred '
+             'vectors; the dot_product == 0 guard dominates the division), hellinger (clamp max(.,0) makes the sqrt defined whatever the quotient rounds '
+             'to; clamp inactive over R by Cauchy-Schwarz), canberra and bray_curtis (guards), hamming, and the binary family jaccard / dice / matching '
+             '/ kulsinski / rogers_tanimoto (= sokal_michener) / sokal_sneath / russellrao / yule as identities over the support counts for every '
+             'dimension (formula, positive divisor under the guard, range, degenerate branch) with the count symmetries; the model Model/Metrics.lean is '
+             'executed over float64 by the driver (`metric <kernel> | x | y [| p]`) and compared with the real kernels (22 named kernels) on random / '
+             'small-integer / 0-1 / identical / scaled / zero / disjoint float32 pairs under refmetrics.close; the real kernels of every public name are '
+             'compared with an independent float64 reference, argument swap, identical inputs and NaN-freedom checked on generated and adversarial pairs',
+     'note': 'trusted: Lean kernel + {propext, Classical.choice, Quot.sound}; float rounding is outside the theorems (exact real arithmetic): value, '
+             'symmetry, identity and NaN under float32 rest on the sampled comparison with the float64 reference under the tolerance rule; theorems '
+             'cover 22 kernels, the remaining public names (seuclidean, wminkowski, mahalanobis, haversine, tsss, spearmanr, JS, symmetric KL, '
+             'wasserstein_1d, circular_kantorovich, kantorovich, sinkhorn, bit_*) are checked on the real kernels only; the RArith guardedness '
+             "formulation is not done (hellinger's clamp is); vectors of equal length, dim < 65536 (uint16 counters, D13); true_angular's sentinel for "
+             '<x,y> <= 0 is a recorded finding, excluded from its spec theorem by hypothesis',
+     'explanation': 'theorems for all vectors of every dimension over R; the proved term itself runs against numba; real kernels vs float64 reference',
+     'assumptions': ['each numba kernel computes what its hand-written Lean model computes: sampled bit-exactly on generated inputs on every run, not '
+                     'proved',
+                     'Lean 4.33.0 kernel; theorems may use only propext, Classical.choice, Quot.sound (audited with #print axioms on every run)',
+                     'the float32/float64 kernels agree with the exact-arithmetic model up to the tolerance of harness/refmetrics.py (sampled: model '
+                     'over float64 vs kernel, kernel vs independent reference)',
+                     'x and y have the same length (numba does not bounds-check); dimension below 65536 for the typed kernels',
+                     'documented domains: non-negative entries for hellinger, unit-norm input for dot, p != 0 (documented p >= 1) for minkowski, dim > 0 '
+                     'for hamming / matching']},
+    "C09": {'harness': 'c09',
+     'level': 'proof',
+     'category': 'proof',
+     'design_ref': 'DESIGN.md 5/C09, 4.7',
+     'translators': ['tables'],
+     'technique': 'Lean 4 proof over the reals (correction o surrogate = metric, surrogate strictly monotone, saturation and dead-band statements) about '
+                  'the generic kernel model + decide over the regenerated alternative tables (registry of proved triples keyed by __name__) + the model '
+                  'executed over float64 against the real surrogate kernels and correction ufuncs + real surrogates / corrections on generated pairs and '
+                  'a sweep of the correction ufuncs over float32 bit patterns',
+     'text': 'Lean theorems: with d = -log2 s, correct_alternative_cosine / _jaccard (d) = 1 - s, correct_alternative_hellinger (d) = sqrt(max(1-s,0)), '
+             'true_angular_from_alt_cosine (d) = 1 - arccos(min(s,1))/pi for every s > 0; s |-> d strictly decreasing on s > 0, hence surrogate <= '
+             "surrogate' <-> metric <= metric' (true_angular: >=); sqrt(squared_euclidean) = euclidean and the order equivalence; at the vector level "
+             'alternative_cosine = -log2(cosSim) and cosine = 1 - cosSim on <x,y> > 0, correction(surrogate) = kernel exactly on the live range for '
+             'cosine, dot, hellinger (non-negative vectors), true_angular (equal length) and jaccard (over the counts), with the order equivalences, and '
+             'for ALL x y 0 <= min(cosine,1) - correction(surrogate) <= 2^-FLOAT32_MAX; saturation stated exactly (1 - 2^-FLOAT32_MAX, sqrt of it, 1/2 + '
+             'arcsin(eps)/pi; eps < 2^-1075 so it evaluates to the far end in float32/float64); the sparse correction ufuncs equal the dense ones '
+             'outside the dead band |d| <= 1e-7 (return 0 inside; deviation <= 1e-7 resp. sqrt(1e-7)), and no float32 log2 value other than 0 falls '
+             'inside it; every entry of fast_distance_alternatives and sparse_fast_distance_alternatives (regenerated on every run) must pair a public '
+             'name whose named kernel is k with a (surrogate, correction) such that (k, surrogate, correction) is in the registry of proved triples, '
+             "decided by kernel evaluation; the model's four surrogate kernels and six correction ufuncs run over float64 against the real ones",
+     'note': 'trusted: Lean kernel + {propext, Classical.choice, Quot.sound}; the tables translator; float rounding of pow / log2 / arccos is outside '
+             'the theorems (ufunc sweep + tolerance); the sparse surrogate KERNELS are not modelled here: they compute the same real function of the '
+             'accumulators that C08 proves equal to the dense ones (the sparse CORRECTIONS are modelled and proved); dense alternative_jaccard on '
+             'disjoint supports evaluates -log2(0) = +inf (IEEE) and is covered by the harness only; order across the saturation boundary needs s > '
+             '2^-FLOAT32_MAX (always true for float32 data, not a statement over R); the true_angular surrogate path reports ~1/2 where the named kernel '
+             'returns FLOAT32_MAX (recorded finding)',
+     'explanation': 'theorems for every similarity s > 0 and all vectors; decide over the regenerated tables; model and real ufuncs on float32 inputs',
+     'assumptions': ['each numba kernel computes what its hand-written Lean model computes: sampled bit-exactly on generated inputs on every run, not '
+                     'proved',
+                     'Lean 4.33.0 kernel; theorems may use only propext, Classical.choice, Quot.sound (audited with #print axioms on every run)',
+                     "sparse surrogate kernels compute the dense surrogate's real function of the same accumulators (C08 for the accumulators; sampled "
+                     'on real sparse vs dense kernels by harness/c09.py)',
+                     'float32 evaluation of pow, log2, arccos, sqrt stays within the tolerance rule and is monotone (swept over float32 bit patterns by '
+                     'harness/c09.py)',
+                     'unit-norm input for dot; non-negative entries for hellinger; equal lengths']},
+    "C20": {'harness': 'c20',
+     'level': 'proof',
+     'category': 'proof',
+     'design_ref': 'DESIGN.md 5/C20, 6/D11, 7',
+     'translators': [],
+     'technique': 'Lean 4 proof (pigeonhole divergence / fair-stream termination of rejection sampling, reachability in the returned graph, termination '
+                  'of the alternating loop for exact tie-free search) + exact differential correspondence of the generator and of rejection_sample + the '
+                  'property predicate on the real connect_graph in watched child processes',
+     'text': 'Lean theorems about a literal model of utils.rejection_sample over any generator (and over the exact Tausworthe generator of utils.py on '
+             'Int64): rejection_sample_spec (whatever it returns is duplicate-free, in range, of the requested length), rejection_sample_diverges / '
+             'unclamped_call_diverges (more samples than the pool holds: never returns, for every generator and every number of draws - the hang of the '
+             'pinned tree), rejection_sample_terminates / clamped_call_terminates (with min(search_size, |component|) samples and a fair stream it '
+             'finishes; fairness is shown necessary by rejection_sample_constant_stream_diverges); connect_spec / connect_spec_spanning / '
+             'connect_graph_model (input symmetric, label classes connected, one non-zero edge per pair of labels inserted in both directions => result '
+             'symmetric, contains the input unchanged, connected, added edges join different components and carry the returned weight); '
+             'alternating_loop_terminates_partial (exact nearest-neighbour search without ties: the `closest pair stabilises` loop exits) and '
+             'alternating_loop_tie_cycle (with ties it need not). The model is tied to the code by bit-exact comparison of tau_rand_int / tau_rand '
+             'streams and of rejection_sample (samples and generator state) at kernel level and for every rejection_sample call the real '
+             'find_component_connection_edge makes; connect_graph itself is run on generated multi-component data sets (3 metrics, 2..8 clusters of '
+             '1..40 points, Gaussian / integer-lattice / duplicate-heavy) in child processes under soft and hard deadlines with a loop-state recorder (a '
+             'repeated state proves non-termination), and the property predicate (symmetric, contains input, one component, added edges cross components '
+             'at the true metric distance) is evaluated on its real output',
+     'note': 'trusted: Lean kernel + {propext, Classical.choice, Quot.sound}; the sampled exact correspondence between the Lean model and utils.py '
+             '(generator, rejection_sample); termination of the real (approximate, tie-breaking) alternating search loop is NOT proved - it is observed '
+             'under a cycle detector and deadlines, and fails on tied distances; that the restricted search only returns points of the other component '
+             'rests on C16 (search graph is a subgraph of the symmetrised neighbour graph); weights are compared with a float64 reference at relative '
+             "1e-5 (cosine: + 4 ulp of 1.0 absolute; a zero-length edge may carry FLOAT32_EPS, the module's convention)",
+     'explanation': 'theorems over every generator / stream / pool size / graph; kernel-level exact correspondence; API-level predicate on real '
+                    'connect_graph output in killed-at-deadline children with recorded rejection_sample calls and loop states',
+     'assumptions': ['each numba kernel computes what its hand-written Lean model computes: sampled bit-exactly on generated inputs on every run, not '
+                     'proved',
+                     'Lean 4.33.0 kernel; theorems may use only propext, Classical.choice, Quot.sound (audited with #print axioms on every run)',
+                     'the generator stream is fair for each component size (every residue mod |component| recurs): true of the Tausworthe generator from '
+                     'non-degenerate states as NNDescent draws them, not proved (a degenerate state such as [1,2,3] yields the constant stream 0 and '
+                     'rejection_sample(2, 5) then hangs - model and kernel agree)',
+                     'pool_size >= 1 (a component is never empty; pool_size = 0 raises ZeroDivisionError in the kernel)',
+                     '`graph` is the symmetrised k-neighbour graph of the same index (adjacency_matrix_representation(*index.neighbor_graph)); for other '
+                     'graphs (e.g. a mutual-kNN subgraph) the restricted search may leave the component - outside the property',
+                     "cosine data with positive similarity (the surrogate saturates at similarity <= 0: C09's documented range)",
+                     'n_jobs=None (sequential joblib); concurrent searches would share index._visited and index.rng_state']},
     "C19": {
         "harness": "c19", "translators": ["threads"], "level": "proof", "category": "proof", "design_ref": "DESIGN.md 5/C19, 2.3",
         "technique": "Lean 4 proof (soundness of an exception-flow checker) + decide over a skeleton regenerated from the source + fault sequences on the real API",
